@@ -189,14 +189,32 @@ def register_units(UNITS, gen):
             steps.append(kind)
         return "HSpec %s %s %s [%s]" % ("true" if in_try else "false", "true" if logs else "false", msg, "; ".join(steps))
 
+    READ_GUARD = [False]
+
+    def dotted_calls(e):
+        return [dotted(x.func) for x in ast.walk(e) if isinstance(x, ast.Call)]
+
     def server_spec(repo):
         tree = gen.parse(repo, "pygopherd/server.py")
         fn = gen.find_func(gen.find_class(tree, "GopherRequestHandler"), "handle")
         body = gen.body_without_doc(fn)
         tries = [s for s in body if isinstance(s, ast.Try)]
-        if len(tries) != 1 or not isinstance(body[-1], ast.Try):
-            raise U("server handle: expected one try, as the last statement")
-        t = tries[0]
+        if not tries or not isinstance(body[-1], ast.Try):
+            raise U("server handle: expected the try around protohandler.handle() as the last statement")
+        t = tries[-1]
+        # an earlier try may only guard the reading of the request line:
+        #   try: request = self.rfile.readline()...  except OSError as e: GopherExceptions.log(e, ...); return
+        READ_GUARD[0] = False
+        for g in tries[:-1]:
+            ok = (len(g.body) == 1 and isinstance(g.body[0], ast.Assign) and not g.orelse and not g.finalbody
+                  and "self.rfile.readline" in dotted_calls(g.body[0].value) and len(g.handlers) == 1
+                  and g.handlers[0].type is not None and dotted(g.handlers[0].type) in ("OSError", "IOError")
+                  and g.handlers[0].body and isinstance(g.handlers[0].body[-1], ast.Return)
+                  and not has_write_call(g.handlers[0].body)
+                  and all(is_call_to(x, "GopherExceptions.log") for x in g.handlers[0].body[:-1]))
+            if not ok:
+                raise U("server handle: unexpected try before the call of the protocol")
+            READ_GUARD[0] = True
         if t.orelse or t.finalbody:
             raise U("server handle: else/finally")
         if not (len(t.body) == 1 and is_call_to(t.body[0], "protohandler.handle")):
@@ -282,6 +300,8 @@ def register_units(UNITS, gen):
             lines.append("  | %s => %s" % (ctor, handle_spec(repo, rel, cls, reply)))
         lines.append("  end.")
         lines.append("Definition server_spec : sspec := %s." % server_spec(repo))
+        lines.append("(* is the reading of the request line guarded by try/except OSError (log, return)? *)")
+        lines.append("Definition request_read_guarded : bool := %s." % ("true" if READ_GUARD[0] else "false"))
         lines.append("(* calls that write to the connection and are reachable from ProtocolMultiplexer.getProtocol,")
         lines.append("   i.e. run before the try statement of GopherRequestHandler.handle *)")
         lines.append("From Coq Require Import String.")
